@@ -203,6 +203,13 @@ theorem consumes_skip (n : Nat) : Consumes (skip n) n := by
 
 theorem consumes_zero_of (rd : Reader α) (k : Nat) (h : Consumes rd k) : Consumes rd 0 := consumes_mono rd k 0 h (Nat.zero_le _)
 
+theorem c0_u8 : Consumes u8 0 := consumes_zero_of _ _ (consumes_leNat 1)
+theorem c0_u16 : Consumes u16 0 := consumes_zero_of _ _ (consumes_leNat 2)
+theorem c0_u32 : Consumes u32 0 := consumes_zero_of _ _ (consumes_leNat 4)
+theorem c0_u64 : Consumes u64 0 := consumes_zero_of _ _ (consumes_leNat 8)
+theorem c0_skip (n : Nat) : Consumes (skip n) 0 := consumes_zero_of _ _ (consumes_skip n)
+theorem c8_u64 : Consumes u64 8 := consumes_leNat 8
+
 /-- `BoundedBy sz k rd`: the size of what a successful read returns is at most `k` times the bytes it used -/
 def BoundedBy (sz : α → Nat) (k : Nat) (rd : Reader α) : Prop :=
   ∀ b x r, rd b = some (x, r) → sz x + k * r.length ≤ k * b.length
